@@ -84,11 +84,16 @@ def mutants():
         with open(meta) as f:
             m = json.load(f)
         out.append({"name": "seeded/" + os.path.basename(d), "property": m["property"], "kind": "patch", "patch": os.path.join(d, "patch.diff")})
-    for name, props in sorted(LEGIT.items()):
-        pth = os.path.join(VERIF, "legit", name, "patch.diff")
-        if os.path.exists(pth):
-            for prop in props:
-                out.append({"name": "legit/%s@%s" % (name, prop), "property": prop, "kind": "patch", "patch": pth, "expect": "quiet"})
+    for pth in sorted(glob.glob(os.path.join(VERIF, "legit", "*", "patch.diff"))):
+        name = os.path.basename(os.path.dirname(pth))
+        props = LEGIT.get(name)
+        if props is None:  # rewrites written by sub-agents: the daemon only -> C14, anything else -> all three
+            with open(pth) as f:
+                txt = f.read()
+            touched = set(re.findall(r"^\+\+\+ b/(\S+)", txt, re.M))
+            props = ["C14"] if touched <= {PKG + "mod_daemon.py"} else ["C10", "C11", "C14"]
+        for prop in props:
+            out.append({"name": "legit/%s@%s" % (name, prop), "property": prop, "kind": "patch", "patch": pth, "expect": "quiet"})
     return out
 
 
